@@ -221,15 +221,20 @@ let run_n args =
   let (evs, nav) = split [] rest in
   match build_green evs with
   | Panic p -> "BUILD-PANIC:" ^ panic_code p
-  | Ok (g, _) ->
+  | Ok (g, c) ->
+    let n_strs = ref c.c_strs in
     let regs = ref [Some []] and rs = ref [] and outs = ref [] in
     List.iter (fun op ->
         let (s, r, rs') = nav_step g !regs !rs op in
         outs := s :: !outs; regs := !regs @ [r]; rs := rs') nav;
     let (all, rsf) = descendants g false !rs [] in
     let held = List.map (function Some p -> show_pos g rsf p | None -> "-") !regs in
+    let texts =
+      if List.length all > 60 then "" else
+        " texts " ^ String.concat "|" (List.filter_map (fun p ->
+            if is_node_at g p then (match subr g p with Some e -> Some (show_text (gtext static_text !n_strs e)) | None -> None) else None) all) in
     String.concat " ; " (List.rev !outs) ^ " ;; " ^ String.concat " " held ^ " ;; "
-    ^ String.concat "," (List.map (show_pos g rsf) all)
+    ^ String.concat "," (List.map (show_pos g rsf) all) ^ texts
 
 (* ------------------------------------------------------------------------------------------ *)
 (* `G` (C15) and `Y` (C14) *)
